@@ -1,7 +1,7 @@
 //! C05 - the transport layer is total. Panic / overflow (chk build) / abort / hang monitor over hostile
 //! streams and call histories; "remains usable" is checked operationally by driving the same object on.
 
-use crate::core::{Ctx, Fail, PropCase, Verdict};
+use crate::core::{Ctx, PropCase, Verdict};
 use crate::ensure;
 use crate::fe::*;
 use crate::gen::{payload, stream};
